@@ -1,8 +1,23 @@
 (* C08 Generalized hash tries behave as sets of tuples.
    Only the property theorems; each is closed by an exact/apply of a lemma proved in
    Coll/PGHT.v and followed by Print Assumptions.  Model: Coll/ModelGHT.v.
-   [wf h d t]: t is a trie of height h keyed from column d on, as produced by insert/merge. *)
+   [wf h d t]: t is a trie of height h keyed from column d on, as produced by insert/merge
+   (distinct child keys, no empty child, rows below child k have k in column d, leaves are sets).
+   NOT covered (stated, not proved; see checks/C08.json): the trie join bimorphisms
+   (GhtCartesianProductBimorphism, GhtValTypeProductBimorphism, GhtNodeKeyedBimorphism,
+   DeepJoinLatticeBimorphism) "return exactly the relational join of their inputs", and COLT force. *)
 From HV Require Import Coll.ModelGHT Coll.PGHT.
+From Coq Require Import Permutation.
+
+(* Every answer of every history of insert / merge / contains / recursive_iter / prefix_iter /
+   find_containing_leaf / partial_cmp / == / height / is_bot on two tries of any height equals the
+   answer of the plain set of rows, with one exception class: partial_cmp may panic where the
+   specification says None (gans_ok; see C08_pcmp_refuted). *)
+Theorem C08_history :
+  forall nk arity ops, gops_ok nk arity ops = true ->
+    Forall2 gans_ok (gmodel_run nk ops) (gspec_run nk ops).
+Proof. exact ght_history_refines. Qed.
+Print Assumptions C08_history.
 
 (* rows (insert t r) = rows t U {r}, for any height *)
 Theorem C08_insert :
@@ -22,12 +37,51 @@ Theorem C08_iter_nodup : forall h d t, wf h d t -> NoDup (riter h t).
 Proof. exact riter_nodup. Qed.
 Print Assumptions C08_iter_nodup.
 
+(* rows (merge a b) = rows a U rows b; changed <-> b has a row a lacks *)
+Theorem C08_merge :
+  forall h d a b, wf h d a -> wf h d b ->
+    wf h d (fst (merge h a b)) /\
+    (forall x, In x (riter h (fst (merge h a b))) <-> In x (riter h a) \/ In x (riter h b)) /\
+    snd (merge h a b) = negb (subset_b (riter h b) (riter h a)).
+Proof. exact merge_spec. Qed.
+Print Assumptions C08_merge.
+
 (* partial_cmp is the subset comparison of the row sets whenever it returns; when it panics
    (unreachable!()) the row sets are incomparable, i.e. the specified answer is None *)
 Theorem C08_pcmp :
   forall h d a b, wf h d a -> wf h d b -> cmp_rel (riter h a) (riter h b) (pcmp h a b).
 Proof. exact pcmp_spec. Qed.
 Print Assumptions C08_pcmp.
+
+Theorem C08_eq :
+  forall h d a b, wf h d a -> wf h d b ->
+    (peq h a b = true <-> incl (riter h a) (riter h b) /\ incl (riter h b) (riter h a)).
+Proof. exact peq_spec. Qed.
+Print Assumptions C08_eq.
+
+(* prefix lookups agree with filtering the rows *)
+Theorem C08_prefix :
+  forall h d t p, wf h d t -> Forall (fun x => h + d <= length x) (riter h t) ->
+    NoDup (prefix_iter h d t p) /\
+    forall x, In x (prefix_iter h d t p) <-> In x (riter h t) /\ has_prefix p (skipn d x) = true.
+Proof. exact prefix_iter_spec. Qed.
+Print Assumptions C08_prefix.
+
+Theorem C08_find_leaf :
+  forall h d t r, wf h d t -> Forall (fun x => h + d <= length x) (riter h t) -> h + d <= length r ->
+    match find_leaf h d t r with
+    | Some L => In r (riter h t) /\ NoDup L /\
+                forall x, In x L <-> In x (riter h t) /\ firstn h (skipn d x) = firstn h (skipn d r)
+    | None => ~ In r (riter h t)
+    end.
+Proof. exact find_leaf_spec. Qed.
+Print Assumptions C08_find_leaf.
+
+(* the executable form evaluated on the implementation's answers *)
+Theorem C08_holds_b_sound :
+  forall nk ops impl, C08_holds_b nk ops impl = true <-> Forall2 gans_equiv impl (gspec_run nk ops).
+Proof. exact c08_holds_b_spec. Qed.
+Print Assumptions C08_holds_b_sound.
 
 (* recorded finding: GhtInner::partial_cmp reaches unreachable!() on incomparable tries *)
 Theorem C08_pcmp_refuted :
@@ -40,11 +94,19 @@ Print Assumptions C08_pcmp_refuted.
 (* ---- non-vacuity *)
 Example C08_ex_wf :
   let t := insert 2 0 (insert 2 0 (insert 2 0 (empty 2) [1; 2; 3]%N) [1; 4; 5]%N) [2; 2; 2]%N in
-  wf 2 0 t /\ riter 2 t = [[1; 2; 3]; [1; 4; 5]; [2; 2; 2]]%N.
+  wf 2 0 t /\ riter 2 t = [[1; 2; 3]; [1; 4; 5]; [2; 2; 2]]%N /\
+  Forall (fun x => 2 + 0 <= length x) (riter 2 t).
 Proof.
-  split; [|vm_compute; reflexivity].
+  split; [|split; [vm_compute; reflexivity|vm_compute; repeat constructor]].
   repeat apply insert_spec. apply wf_empty.
 Qed.
 Example C08_ex_pcmp :
   pcmp 1 (insert 1 0 (insert 1 0 (empty 1) [1; 1]%N) [2; 2]%N) (insert 1 0 (empty 1) [1; 1]%N) = PSome Gt.
 Proof. vm_compute. reflexivity. Qed.
+Example C08_ex_history :
+  let ops := [GInsert false [1; 1; 5]; GInsert true [1; 2; 6]; GMerge false; GCmp false;
+              GPrefix false [1; 2]; GLeaf false [1; 1; 5]; GEq true]%N in
+  gops_ok 2 3 ops = true /\
+  gmodel_run 2 ops = [GABool true; GABool true; GABool true; GACmp (PSome Gt); GARows [[1; 2; 6]];
+                      GAOptRows (Some [[1; 1; 5]]); GABool false]%N.
+Proof. split; vm_compute; reflexivity. Qed.
